@@ -7,7 +7,7 @@ ALL = [f"C{i:02d}" for i in range(1, 21)]
 
 CHECKS = {
  "C01": dict(cat="exploration", engine="model-sweep", technique="bounded exhaustive enumeration of models x configurations x branchers on the real solver, brute-force reference oracle",
-   text="Every model of the bounded spaces M1-M6 (single constraints, pairs, conflict-rich triples, clause-rich models, the clause space, literals defined by predicates) is solved through every solution-producing API (satisfy, iterator, assumptions, both optimisation procedures incl. callbacks) under a slice of configurations and branchers; each returned assignment is checked against the reference semantics. Exhaustive within the stated bounds.",
+   text="Every model of the bounded spaces M1-M12 (single constraints, pairs, conflict-rich triples, clause-rich models, the clause space, literals defined by predicates, clauses over views, medium models, search problems with hundreds of conflicts, raw sparse lists, literals as 0-1 integer variables through Literal::offset/scaled, constant literals) and of the decision-profile cumulative sets is solved through every solution-producing API (satisfy, iterator, assumptions, both optimisation procedures incl. callbacks) under a slice of configurations and branchers; each returned assignment is checked against the reference semantics. Exhaustive within the stated bounds.",
    note="small-scope hypothesis (<=5 variables, <=4 values); reference model self-checked; division denominators exclude 0", ref="DESIGN.md §4 C01"),
  "C02": dict(cat="exploration", engine="model-sweep", technique="bounded exhaustive enumeration + learned-nogood entailment check through the tap",
    text="Same enumeration; post errors and Unsatisfiable verdicts are compared with brute force, Unknown never occurs, and every nogood learned (observed through the tap, in satisfy runs and in every step of a complete iteration) must be entailed by the model (plus blocking clauses so far).",
@@ -16,19 +16,19 @@ CHECKS = {
    text="Complete iteration of every model under each configuration/brancher yields exactly the reference solution set, each solution once; every prefix is checked.",
    note="as C01", ref="DESIGN.md §4 C03"),
  "C04": dict(cat="exploration", engine="model-sweep", technique="bounded exhaustive enumeration of models x objective views x directions x procedures, brute-force optimum",
-   text="Strides of M1/M2/M3/M5 x every variable x views (negative scale, offsets) x min/max x LinearSatUnsat/LinearUnsatSat x configurations/branchers: Optimal(s) is a solution with the brute-force optimal value, Unsatisfiable iff no solution, callbacks only see solutions.",
+   text="Strides of M1/M2/M3/M5 and scheduling models (cumulative task sets incl. negative start times under 4 option sets) x every variable x views (negative scale, offsets) x min/max x LinearSatUnsat/LinearUnsatSat x configurations/branchers: Optimal(s) is a solution with the brute-force optimal value, Unsatisfiable iff no solution, callbacks only see solutions.",
    note="small-scope hypothesis; termination condition never fires", ref="DESIGN.md §4 C04"),
  "C05": dict(cat="exploration", engine="model-sweep", technique="bounded exhaustive enumeration of assumption lists and solve histories, brute-force oracle for results and cores",
    text="All assumption lists up to length 2 (3 thorough) over a predicate alphabet incl. out-of-domain and hole values, with and without (double) core extraction, followed by a plain satisfy; plus 2-step assumption histories on one solver. Solutions satisfy model+assumptions, unsat-under-assumptions only if truly so, cores are implied by the assumptions and inconsistent with the model, assumptions are not retained.",
    note="own definition of a directly contradictory pair (no integer satisfies both)", ref="DESIGN.md §4 C05"),
  "C06": dict(cat="exploration", engine="proof-checker", technique="bounded exhaustive enumeration of proof-producing runs, each proof checked by an independent DRCP checker (exhaustive semantic check of inferences, reverse constraint propagation for nogoods)",
-   text="Strides of M1/M3/M4/M5/M6 (incl. literal variables and literals defined by predicates) x {satisfy, min/max with both procedures} x {scaffold, full, hinted} x minimisation on/off x 2 branchers with named variables and one tag per constraint; own .drcp/.lits parsers; every tagged inference follows from the single reference constraint by exhaustion; untagged inferences from one constraint (with the root facts established by earlier unit nogoods) / earlier nogood / domains (objective cuts admitted only at incumbent values); every nogood is RCP-derivable and entailed by the reference solutions; UNSAT preceded by the empty nogood; optimality conclusion is the true dual bound.",
+   text="Strides of M1/M3/M4/M5/M6 (incl. literal variables and literals defined by predicates) x {satisfy, min/max with both procedures} x {scaffold, full, hinted} x minimisation on/off x 2 branchers with named variables and one tag per constraint; own .drcp/.lits parsers; every tagged inference follows from the single reference constraint by exhaustion; untagged inferences from one constraint (with the root facts established by earlier unit nogoods) / earlier nogood / domains (objective cuts admitted only at incumbent values); every nogood is RCP-derivable (from its hints in hinted proofs; the one known finding about omitted unit-nogood hints is matched by signature and by listed inputs) and entailed by the reference solutions; UNSAT preceded by the empty nogood; optimality conclusion is the true dual bound.",
    note="scaffold proofs of LinearSatUnsat runs do not contain the objective cuts, so their nogoods are only checked structurally", ref="DESIGN.md §4 C06"),
  "C13": dict(cat="exploration", engine="fzn-cli", technique="grammar-bounded exhaustive enumeration of FlatZinc texts run through the real binary, independent evaluator of the builtins",
-   text="Every handled constraint name (110+ instantiations), single and paired, x goals x flags (-a, -f, optimisation strategy), declaration variants (aliases, fixed values, set domains, arrays, parameters), search annotations; the printed blocks are compared with a brute-force evaluation of the standard FlatZinc semantics.",
+   text="Every handled constraint name (110+ instantiations), single and paired, x goals x flags (-a, -f, optimisation strategy), declaration variants (aliases and alias classes, fixed values, set domains incl. unsorted / repeated / interval-like literals, arrays, parameters, zero coefficients), search annotations; the printed blocks are compared with a brute-force evaluation of the standard FlatZinc semantics.",
    note="constructs for which the front end has todo!() are not generated", ref="DESIGN.md §4 C13"),
  "C14": dict(cat="fault_enumeration", engine="dimacs", technique="exhaustive enumeration of small CNF formulas x file layouts (deviation-bounded) x all 1-/2-cut chunkings of the byte stream (short reads) on the repository's own parser; CLI end-to-end with own RUP checker",
-   text="All formulas within the bounds as ordered literal sequences; every layout with <=2 non-default separators, prefixes/suffixes; every 1- and 2-cut chunking for layouts with <=1 deviation must parse to exactly the formula; verdict and model vs brute force; CLI proofs checked by a forward RUP checker.",
+   text="All formulas within the bounds as ordered literal sequences; every layout with <=2 non-default separators, prefixes/suffixes; every 1- and 2-cut chunking for layouts with <=1 deviation must parse to exactly the formula; verdict and model vs brute force; CLI proofs checked by a forward RUP checker, also on structured formulas of up to 20 variables whose refutation needs learned lemmas and on formulas renamed to variable indices beyond 2^16.",
    note="headers spelled canonically; parsers/dimacs.rs is compiled into the harness via #[path]", ref="DESIGN.md §4 C14"),
  "C15": dict(cat="exploration", engine="wcnf-cli", technique="bounded exhaustive enumeration of WCNF instances x both encodings x seeds through the real binary, brute-force optimum",
    text="WCNF instances over <=3 variables (hard parts incl. unsatisfiable, unit/empty/duplicate/complementary/root-decided soft clauses, several weights) x 2 encodings x 2 seeds: s/o/v lines vs brute force; encodings agree; termination within 2 s.",
@@ -42,14 +42,14 @@ CHECKS = {
  "C07": dict(cat="exploration", engine="config-product", technique="full product of solver options x branchers on conflict-rich models, brute-force reference",
    text="All 186 valid option combinations x branchers x conflict-rich models: verdict, complete solution set and optimum each equal the reference; counters show how often restarts, deletion, id reuse, no-learning backtracking actually fired.",
    note="finite option alphabets chosen to make each mechanism fire on small models", ref="DESIGN.md §4 C07"),
- "C09": dict(cat="exploration", engine="reif-sweep", technique="bounded exhaustive enumeration of (constraint, mode, literal status, fixing order) + scripted exploration with explanation tap",
+ "C09": dict(cat="exploration", engine="reif-sweep", technique="bounded exhaustive enumeration of (constraint incl. Boolean linear constraints with weights of both signs, mode, literal status, fixing order) + scripted exploration with explanation tap",
    text="Every constraint instance x {implied_by, reify, negation, negated reify} x literal status (free/true/false before/after, negative literal) x fixing orders; the solution set over (variables, literal) equals implication / equivalence / complement semantics; all 6 cumulative methods (144 options in thorough) under reification.",
    note="only NegatableConstraint implementations are negated / fully reified", ref="DESIGN.md §4 C09"),
  "C10": dict(cat="model_checking", engine="history-explorer", technique="explicit-state search over all API call histories up to a depth on the real Solver (states = history prefixes), reference model of the accumulated constraints",
-   text="All sequences of 4 (5 thorough) operations over a 30-operation API alphabet on one solver; after every operation: no panic/hang and the result equals the reference for everything accumulated so far (incl. blocking clauses of iterated solutions).",
+   text="All sequences of 4 (5 thorough) operations over a 34-operation API alphabet (core extraction done twice on the same result) on one solver; after every operation: no panic/hang and the result equals the reference for everything accumulated so far (incl. blocking clauses of iterated solutions).",
    note="no state merging (a Solver can neither be cloned nor hashed); fresh default brancher per solve", ref="DESIGN.md §4 C10"),
- "C11": dict(cat="fault_enumeration", engine="interrupt-enumerator", technique="exhaustive enumeration of the poll index at which the termination condition fires (sticky and one-shot), for satisfy / iteration / both optimisation procedures",
-   text="For every case the polls N of the uninterrupted run are counted and the run is repeated for every k in 0..=N with the condition firing at poll k; the result is Unknown / best-so-far (a solution) / the correct definitive answer, and the same solver answers correctly when asked again without interruption.",
+ "C11": dict(cat="fault_enumeration", engine="interrupt-enumerator", technique="exhaustive enumeration of the poll index at which the termination condition fires (sticky and one-shot), for satisfy / iteration / both optimisation procedures in the library, and of the poll at which the time budget of the command-line binary (built with the hook) fires, for FlatZinc / DIMACS / WCNF inputs",
+   text="For every case the polls N of the uninterrupted run are counted and the run is repeated for every k in 0..=N with the condition firing at poll k; the result is Unknown / best-so-far (a solution) / the correct definitive answer, and the same solver answers correctly when asked again without interruption. Front ends: for every k until a run is no longer interrupted the output of the binary makes no wrong definitive claim (solutions valid, ========== / OPTIMUM FOUND / UNSATISFIABLE only when true).",
    note="runs with more than 80 (400) polls are skipped and counted", ref="DESIGN.md §4 C11"),
  "C12": dict(cat="exploration", engine="prefix-sweep", technique="bounded exhaustive enumeration of models x posting permutations x prefixes, brute-force bounds",
    text="After every post of every permutation of every model the reported bounds of every variable and of 6 views and the literal values enclose all solutions of the prefix model, lie in the declared range and only tighten.",
@@ -61,7 +61,7 @@ CHECKS = {
    text="All 14x14 selector pairs constructible through the public API plus default, dynamic and alternating branchers x 3 configurations (restarts forced) x models over all domain shapes, complete iteration; every proposed decision is over the brancher's variables and undecided; no decision only when all its variables are fixed; terminates with fully fixed solutions.",
    note="MostConstrained is not constructible through the public API; decisions are read through the tap", ref="DESIGN.md §4 C18"),
  "C08": dict(cat="exploration", engine="cumulative-sweep", technique="bounded exhaustive enumeration of task sets x all 144 option combinations",
-   text="All 2-task sets (and a 3-task family) over small alphabets of start domains/views, durations, usages and capacities under ALL 144 CumulativeOptions; the iterated solution set must equal the time-point reference semantics.",
+   text="All 2-task sets, 3- and 4-task families (two-profile, long-profile, gap, decision-profile, negative-anchor and strided medium sets, half of them around time 0) over small alphabets of start domains/views, durations, usages and capacities under ALL 144 CumulativeOptions; the iterated solution set must equal the time-point reference semantics.",
    note="time-point semantics as documented; zero-duration tasks never run", ref="DESIGN.md §4 C08"),
  "C17": dict(cat="model_checking", engine="script-explorer", technique="deviation-bounded exhaustive exploration of decision scripts (controlled scheduler) on the real solver with explanation tap",
    text="For every model all decision scripts with a bounded number of deviations are executed; every propagation reason (eager and lazy, at propagation time and as re-computed in conflict analysis) and every conflict explanation is checked by exhaustion against the reference constraint it is tagged with. States = decision points, transitions = decisions.",
